@@ -109,6 +109,43 @@ func c06UseSites() []useSite {
 				}
 				return []sqlx.Expr{st.Q.Items[1].X}, nil
 			}},
+		// a column alias of the same name does not hide the binding in later expressions
+		{name: "sort-after-extend-alias", pos: "custom",
+			tree: w(func(n gen.Expr) gen.Expr { return &gen.Binary{Op: "+", X: n, Y: na} }),
+			build: func(e string) string { return "T | extend " + identOf(e) + " = nb * 2 | sort by " + e + " asc" },
+			extract: func(st *sqlx.Stmt) ([]sqlx.Expr, error) {
+				if len(st.Q.OrderBy) != 1 {
+					return nil, errShape
+				}
+				return []sqlx.Expr{st.Q.OrderBy[0].X}, nil
+			}},
+		{name: "top-after-extend-alias", pos: "custom",
+			tree: w(func(n gen.Expr) gen.Expr { return &gen.Binary{Op: "-", X: na, Y: n} }),
+			build: func(e string) string { return "T | where na > 0 | extend " + identOf(e) + " = nb | top 3 by " + e },
+			extract: func(st *sqlx.Stmt) ([]sqlx.Expr, error) {
+				if len(st.Q.OrderBy) != 1 {
+					return nil, errShape
+				}
+				return []sqlx.Expr{st.Q.OrderBy[0].X}, nil
+			}},
+		{name: "where-after-project-alias", pos: "custom",
+			tree: w(func(n gen.Expr) gen.Expr { return &gen.Binary{Op: "==", X: na, Y: n} }),
+			build: func(e string) string { return "T | project na, " + identOf(e) + " = nb | where " + e },
+			extract: func(st *sqlx.Stmt) ([]sqlx.Expr, error) {
+				if st.Q.Where == nil {
+					return nil, errShape
+				}
+				return []sqlx.Expr{st.Q.Where}, nil
+			}},
+		{name: "where-after-summarize-alias", pos: "custom",
+			tree: w(func(n gen.Expr) gen.Expr { return &gen.Binary{Op: "<", X: n, Y: na} }),
+			build: func(e string) string { return "T | summarize " + identOf(e) + " = count() by na | where " + e },
+			extract: func(st *sqlx.Stmt) ([]sqlx.Expr, error) {
+				if st.Q.Where == nil {
+					return nil, errShape
+				}
+				return []sqlx.Expr{st.Q.Where}, nil
+			}},
 		{name: "join-on", pos: "custom", truth: true,
 			tree: w(func(n gen.Expr) gen.Expr {
 				return &gen.Binary{Op: "==", X: &gen.Name{Parts: []gen.Ident{{Name: "$left"}, {Name: "na"}}}, Y: n}
@@ -206,7 +243,15 @@ func (c c06Case) source() (string, gen.Expr) {
 func c06Check(w *run.Worker, in *sem.Interner, c c06Case) {
 	src, tree := c.source()
 	w.Begin("binding-semantics:"+c.site.name, src)
-	opts := &pql.CompileOptions{Parameters: c.params.m}
+	// a private copy per call: a tree that writes into the caller's map must not disturb later cases (C14 reports that)
+	var pm map[string]string
+	if c.params.m != nil {
+		pm = map[string]string{}
+		for k, v := range c.params.m {
+			pm[k] = v
+		}
+	}
+	opts := &pql.CompileOptions{Parameters: pm}
 	var sql string
 	var err error
 	if !w.Try(src, func() { sql, err = opts.Compile(src) }) {
@@ -545,4 +590,16 @@ func c06Replay(w *run.Worker, v *run.Viol) {
 		return
 	}
 	c06Check(w, sem.NewInterner(), c)
+}
+
+// identOf returns the bound identifier used in a printed use-site expression: the
+// one name among the bindings' names (n, m, true, p) that occurs as a lexeme.
+func identOf(e string) string {
+	for _, f := range strings.Fields(e) {
+		switch f {
+		case "n", "m", "p", "true":
+			return f
+		}
+	}
+	return "n"
 }
